@@ -241,6 +241,10 @@ fn decls(c: &DocCase) -> Vec<Decl> {
             if bits & 2 != 0 {
                 tags.push("beta".to_string());
             }
+            if bits & 3 == 3 {
+                // a tag nobody else carries, so that the set of tags in use depends on version and visibility
+                tags.push(format!("only-{}", e.op));
+            }
             Decl { e, kind: c.kinds[i % c.kinds.len()], tags, deprecated: bits & 4 != 0 }
         })
         .collect()
@@ -399,6 +403,18 @@ fn check_doc(c: &DocCase, st: &mut Stats) -> Result<(), Failure> {
             let tags: Vec<String> = op.get("tags").and_then(|t| t.as_array()).map(|a| a.iter().filter_map(|x| x.as_str().map(|s| s.to_string())).collect()).unwrap_or_default();
             ensure!(tags == d.tags, "operation-tags", "{} {}: tags should be {:?}, got {:?}", d.e.method, d.e.doc_path(), d.tags, tags);
         }
+        // the document-level tag list: exactly the tags of what is documented at this version
+        let want_tags: BTreeSet<String> = ds.iter().filter(|d| d.e.visible && d.e.range.contains(&v)).flat_map(|d| d.tags.iter().cloned()).collect();
+        let got_tags: BTreeSet<String> = doc["tags"].as_array().map(|a| a.iter().filter_map(|t| t["name"].as_str().map(|s| s.to_string())).collect()).unwrap_or_default();
+        ensure!(
+            got_tags == want_tags,
+            "document-level-tags",
+            "document at {}: top-level tags {:?}, tags of the published endpoints in range {:?} (table: {:?})",
+            v.text(),
+            got_tags,
+            want_tags,
+            ds.iter().map(|d| format!("{} {} [{}] vis={} tags={:?}", d.e.method, d.e.template(), d.e.range.text(), d.e.visible, d.tags)).collect::<Vec<_>>()
+        );
         docs_per_version.push((v, want.len()));
     }
     // served side, on one description
@@ -441,8 +457,8 @@ fn check_doc(c: &DocCase, st: &mut Stats) -> Result<(), Failure> {
 }
 
 pub fn run(ctx: &mut Ctx) {
-    ctx.rule = "endpoint sets from the C01 tree generator with visibility, tags, deprecated flags, reused operation ids and handler shapes from a compiled zoo that forces $refs (named/nested structs, Vec, recursive type, two Rust types with one schema name, custom error type, typed bodies); three registration permutations; every pool version plus two sentinels. Oracle: documented (method, path, operationId) set == {published and v in range}; every $ref resolves; bytes equal across permutations and across two calls; every endpoint with v in range is served by lookup_route whether published or not. non-trivial = >=4 endpoints, >=1 unpublished, >=2 distinct ranges and a version that filters a published endpoint out; distinct by (case, version)".into();
-    ctx.assume("only operations, references, tags/deprecated of operations and bytes are asserted; the top-level tags array is not");
+    ctx.rule = "endpoint sets from the C01 tree generator with visibility, tags, deprecated flags, reused operation ids and handler shapes from a compiled zoo that forces $refs (named/nested structs, Vec, recursive type, two Rust types with one schema name, custom error type, typed bodies); three registration permutations; every pool version plus two sentinels. Oracle: documented (method, path, operationId) set == {published and v in range}; every $ref resolves; document-level tag list == tags of the documented operations; bytes equal across permutations and across two calls; every endpoint with v in range is served by lookup_route whether published or not. non-trivial = >=4 endpoints, >=1 unpublished, >=2 distinct ranges and a version that filters a published endpoint out; distinct by (case, version)".into();
+    ctx.assume("operations, references, tags/deprecated of operations, the document-level tag list and bytes are asserted");
     let n = ctx.tier.pick(3000, 40000);
     ctx.phase("documents", n, doc_case_strategy(), check_doc);
     ctx.require_frac("documents", "unpublished_served", "documents", 0.05);
